@@ -101,7 +101,7 @@ def cases(draw):
     main_ = draw(renderings())
     n = len(main_['doc']['types'])
     opts = [draw(option_sets(n)) for _ in range(3)]
-    nfiles = draw(st.integers(1, 4))
+    nfiles = draw(st.integers(2, 5))
     tree = []
     stems = ['a', 'b', 'c', 'd', 'e']
     for j in range(nfiles):
